@@ -92,7 +92,9 @@ def rules_for(pid):
             ("K-fresh-state", lambda c: RK.k_fresh_state(c.P, c.E, lambda root: not _is_combinator_root(root)), 18),
             ("D-compose", lambda c: RO.d_compose(c.P, c.E), 3),
             ("COUNT", lambda c: RCNT.count_rule(c.P, c.E, c.H), 6),
-            ("OPSEM", lambda c: ROPS.opsem_rule(c.P, c.E, c.H), 8),
+            ("OPSEM", lambda c: ROPS.opsem_rule(c.P, c.E, c.H), 16),
+            ("SRC", lambda c: ROPS.creators_rule(c.P, c.E, c.H), 7),
+            ("D-compose2", lambda c: ROPS.compose_rule(c.P, c.E, c.H), 4),
         ],
         "C03": [
             ("H-register-first", lambda c: RH.h_register_first(c.P, c.E, c.H), 9),
@@ -114,6 +116,8 @@ def rules_for(pid):
             ("J-terminal", lambda c: _only(RJ.j_rules(c.P, c.E), ("J3", "J4", "J7")), 3),
             ("K-fresh-state", lambda c: RK.k_fresh_state(c.P, c.E, lambda root: root.startswith("operators::")
                                                         and root.split("::")[1] in RECOVERY), 3),
+            ("OPSEM", lambda c: _only(ROPS.opsem_rule(c.P, c.E, c.H), ("operators::materialize::Materialize",
+                                                                      "operators::dematerialize::Dematerialize")), 2),
         ],
         "C05": [
             ("O-unsub-order", lambda c: RO.o_unsub_order(c.P, c.E), 4),
